@@ -550,6 +550,7 @@ func child(resultPath, root, tier string, only int) {
 	idx := 0
 	touched := map[string]string{existP: "seed"}
 	hungStop := false
+	watchSeen := false
 	for mi := 0; mi < svc.Methods().Len() && !hungStop; mi++ {
 		md := svc.Methods().Get(mi)
 		method := string(md.Name())
@@ -591,6 +592,13 @@ func child(resultPath, root, tier string, only int) {
 				if only >= 0 && idx != only {
 					idx++
 					continue
+				}
+				if lo, hi := 0, 0; os.Getenv("C26_RANGE") != "" { // debugging aid: run only the variants lo..hi
+					fmt.Sscanf(os.Getenv("C26_RANGE"), "%d-%d", &lo, &hi)
+					if idx < lo || idx > hi {
+						idx++
+						continue
+					}
 				}
 				// every variant of the persistent pass works on its own swamp, so that the reload check at
 				// the end names the request that damaged a swamp
@@ -664,6 +672,14 @@ func child(resultPath, root, tier string, only int) {
 					rec.VigilBad = vigilBad(s)
 				}
 				emit(rec)
+				if w := os.Getenv("C26_WATCH"); w != "" { // debugging aid: when does the file of a swamp appear / vanish
+					pth := name.Load(w).GetFullHashPath(s.Settings.GetHydraAbsDataFolderPath(), 1, s.Settings.GetHashFolderDepth(), s.Settings.GetMaxFoldersPerLevel()) + ".hyd"
+					_, statErr := os.Stat(pth)
+					if (statErr == nil) != watchSeen {
+						watchSeen = statErr == nil
+						fmt.Printf("WATCH %s file present=%v after idx %d %s %s\n", w, watchSeen, idx, method, v.name)
+					}
+				}
 				idx++
 				if hungStop {
 					break
@@ -888,6 +904,8 @@ func main() {
 				sig := "touched_swamp_does_not_reload"
 				if strings.HasSuffix(r.Variant, "/big") {
 					sig = "oversized_key_stored_swamp_unloadable"
+				} else if strings.Contains(r.Note, "Swamp does not exist") {
+					sig = "swamp_file_never_written_records_lost_at_shutdown"
 				}
 				idx := run.Add("(VC None (SH NOk false KOk false false false false false) false 0%Z 0%Z false 0%Z 0%Z)", map[string]interface{}{"swamp": r.Variant, "last_request_on_it": r.Req, "reload": r.Note, "hang": r.Hang, "panics": r.Panics}, true)
 				run.Violate(idx, "never corrupts stored data", sig, fmt.Sprintf("swamp %s (touched by: %s) after restart: %s (hang=%v panics=%d)", r.Variant, r.Req, r.Note, r.Hang, r.Panics))
